@@ -11,7 +11,9 @@ From VLS Require Import Base.U64 Model.Tracker Model.TrackerCheck Proofs.Tracker
     or the policy filter downgrades the tag -- its proof verified against the watches and at
     least half of the trusted oracles attested ([block_valid]); the tip, height and window
     move by exactly that block; a removal retreats to the remembered parent (or, beyond the
-    window, only when deep reorgs are allowed); chunks move nothing. *)
+    window, only when deep reorgs are allowed); chunks move nothing; a restart from the store
+    moves nothing either, except that a tracker still at height 0 on a network with a
+    compiled-in checkpoint is fast-forwarded to that checkpoint. *)
 Theorem C13_advance_only_valid :
   forall (c : cfg) (s0 : tstate) (rs : list req),
     Forall (fun '(s, r, s', res) => res = Ok -> accepted_ok c s r s') (steps fixed c s0 rs).
@@ -76,7 +78,7 @@ Print Assumptions C13_window_linked.
 (** * Non-vacuity: a concrete history with accepted and refused requests of every kind *)
 Definition bits0 : N := 545259519.   (* 0x207fffff *)
 Definition hd (k : N) : hdr := mkhdr k (k - 1) true bits0 0.
-Definition cfg0 : cfg := mkcfg Regtest [1; 2; 3] false false Debug.
+Definition cfg0 : cfg := mkcfg Regtest [1; 2; 3] false false Debug None.
 Definition st0 : tstate :=
   mkts [(hd 9, 9); (hd 8, 8)] (hd 10, 10) 10 [mkslot 1 [1] [] [] 1] None false.
 Definition good (t : ptype) (fh : N) (d : list N * list N * N) : proofinfo :=
@@ -121,10 +123,23 @@ Example C13_repeated_attestation_refused :
    snd (step fixed cfg0 s1 (Remove (hd 10, 10) two)) = Ok).
 Proof. vm_compute. repeat split. Qed.
 
+(** a restart moves nothing once the tracker has left height 0, also on a network with a
+    checkpoint; only a tracker still at height 0 is fast-forwarded to it *)
+Example C13_restart_examples :
+  let ck := ((mkhdr 900 899 true 436469756 0, 77), 2862000) in
+  let c := mkcfg Testnet [1; 2; 3] false true Debug (Some ck) in
+  let s5 := mkts [(hd 9, 9)] (hd 10, 10) 5 [mkslot 1 [1] [4] [] 3] (Some (12, true)) true in
+  let s0 := mkts [] (hd 10, 10) 0 [mkslot 1 [1] [] [] 3] None false in
+  view (fst (step fixed c s5 (Restart [3]))) = view s5 /\
+  quiet (fst (step fixed c s5 (Restart [3]))) /\
+  view (fst (step fixed c s0 (Restart [3]))) = ([], fst ck, 2862000, [mkslot 1 [1] [] [] 3]) /\
+  view (fst (step fixed cfg0 s0 (Restart [3]))) = view s0.
+Proof. vm_compute. repeat split. Qed.
+
 (** the retarget window at an interval boundary: same bits and a halved target pass, an
     eighth does not, and nothing passes above the chain maximum *)
 Example C13_retarget_examples :
-  let c := mkcfg Regtest [] false false Debug in
+  let c := mkcfg Regtest [] false false Debug None in
   chain_rule c 2015 (mkhdr 1 0 true 520159231 0) (mkhdr 2 1 true 520159231 0) = ROk /\
   chain_rule c 2015 (mkhdr 1 0 true 520159231 0) (mkhdr 2 1 true 511704960 0) = ROk /\
   chain_rule c 2015 (mkhdr 1 0 true 520159231 0) (mkhdr 2 1 true 505413600 0) = RErr InvalidChain /\
